@@ -31,16 +31,22 @@ impl PartialEq for Color {
 impl Ord for Color {
     fn cmp(&self, other: &Self) -> std::cmp::Ordering {
         match (self, other) {
-            (Color::Hsla(a), Color::Hsla(b)) => a.partial_cmp(b).unwrap(),
-            (Color::Hsla(a), Color::Hwba(b)) => {
-                a.partial_cmp(&Hsla::from(b)).unwrap()
+            (Color::Hsla(a), Color::Hsla(b)) => {
+                a.partial_cmp(b).unwrap_or_else(|| cmp_as_rgba(self, other))
             }
-            (Color::Hwba(a), Color::Hsla(b)) => {
-                Hsla::from(a).partial_cmp(b).unwrap()
-            }
-            (a, b) => a.to_rgba().cmp(&b.to_rgba()),
+            (Color::Hsla(a), Color::Hwba(b)) => a
+                .partial_cmp(&Hsla::from(b))
+                .unwrap_or_else(|| cmp_as_rgba(self, other)),
+            (Color::Hwba(a), Color::Hsla(b)) => Hsla::from(a)
+                .partial_cmp(b)
+                .unwrap_or_else(|| cmp_as_rgba(self, other)),
+            (a, b) => cmp_as_rgba(a, b),
         }
     }
+}
+/// Compare two colors by their rgba channels (a total order, also for NaN).
+fn cmp_as_rgba(a: &Color, b: &Color) -> std::cmp::Ordering {
+    a.to_rgba().cmp(&b.to_rgba())
 }
 impl PartialOrd for Color {
     fn partial_cmp(&self, other: &Self) -> Option<std::cmp::Ordering> {
